@@ -80,6 +80,8 @@ def run(repo, chk):
     chk.analysed["_enter acquisitions"] = f["acquires"]
     from .shared import refused_enter_obligations
     refused_enter_obligations(repo, chk, "R17.1")
+    from .shared import close_order_obligations
+    close_order_obligations(repo, chk, "R17.3", "the end-of-call events of several total probes on one function are published in activation order: an earlier probe has its event before a later probe's subscriber can deactivate it")
     from .shared import installs_selected_variant_obligations
     installs_selected_variant_obligations(repo, chk, "R17.2", "once the last probe on a function is deactivated the function runs its original code again, so handlers that survive in some context (a copied context, a collection restored out of order) hear nothing from it")
     from .shared import call_exit_order_obligations
